@@ -25,7 +25,7 @@ func SizeOk(n int) (bool, int64) {
 		return true, 0
 	}
 	free := FreeMemory()
-	return ((free >= 0) && ((int64(n) * ObjectSize) < free)), free
+	return ((free >= 0) && (int64(n) < free/ObjectSize)), free // division: n * ObjectSize can wrap around
 }
 
 func MustBeOk(n int) {
